@@ -8,8 +8,17 @@
    packets of K bytes with their block pointer, and the packets into pages of NP packets with a
    header carrying the continuity index and the packet count.  TLC enumerates all block lists,
    i.e. every alignment of separators, structure headers and data relative to packet and page ends.
-   CHANNEL: one item may be dropped or its block pointer damaged beyond correction.
-   RECEIVER: the state machine of the demultiplexer, one item per step.
+   CHANNEL (fault alphabet, one fault per transmission, at UNIT granularity): an item is dropped, or one Hamming 8/4
+   protected unit of it is hit once (err1: must be corrected = no fault) or twice (err2: unreadable).  Units of a header:
+   mrag0 mrag1 (magazine / packet number), pgu pgt (page number), s1 (continuity index) s2 (packet count, low) s3 (stream)
+   s4 (packet count, high), c1 c2 (control bits); of a packet: mrag0 mrag1, bp (block pointer), el i = the i-th data byte
+   when it is a block separator, a filler byte or a structure header nibble (user data bytes are not protected).
+   RECEIVER: the state machine of the demultiplexer, one item per step.  What an unreadable unit means is fixed by
+   the statement only as far as "the damaged block is discarded, nothing that was not sent is delivered, delivery
+   resumes"; the receiver has a policy pol:  "strict" - any unreadable unit in an item that may belong to our magazine
+   discards the block in progress and waits for the next header;  "lenient" - only the units needed are looked at, an
+   item whose addressing is unreadable is taken as not for us (a header ends the page and keeps the block, the
+   continuity index decides later; a packet is lost).  The properties hold for both; an implementation may mix them.
    Property C15 (PFC half): Sound, Complete, Resume below.
 
    Wire elements are integers: 0..255 data byte, BS = 300, FILL = 301, 400+n = structure header
@@ -18,22 +27,29 @@ EXTENDS Naturals, Integers, Sequences, FiniteSets, TLC
 
 CONSTANTS K,            \* data bytes per packet (39)
           NP,           \* packets per page (1..25)
+          CiStart,      \* continuity index of the first page (15: the index wraps at the first page end)
           Sizes,        \* block sizes
           Fills,        \* numbers of extra filler bytes in front of a block
           MaxBlocks,
-          Faults,       \* subset of {"none", "drop", "badbp"}
+          Faults,       \* subset of {"none", "drop", "err1", "err2"}
+          Units,        \* unit classes that are hit: subset of HdrUnits \cup {"bp", "bs", "fill", "sh"} (mrag0 / mrag1 also in packets)
+          UnitBlocks,   \* units are hit in transmissions of at most this many blocks
+          Policies,     \* subset of {"strict", "lenient"}
           TailCheck,    \* TRUE: a header arriving before the announced last packet of the page resets (repaired code)
           Foreign,      \* other traffic of the magazine between two of our pages: subset of {"none", "page", "stream", "mag"}
                         \*   "page": header + first packet of another page of our magazine; "stream": our page number with
-                        \*   another stream number; "mag": a header of another magazine in the middle of our page (parallel mode)
+                        \*   the next stream number, header + first packet; both packets carry a complete block of the other
+                        \*   service.  "mag": a header of another magazine in the middle of our page (parallel mode)
           TailAtForeign \* TRUE (as coded): the missing-tail test is made at EVERY header of our magazine, before the page filter
 
 BS == 300
 FILL == 301
+ERR == 499              \* a Hamming protected byte hit twice
 NoBP == 13              \* block pointer value "no block starts in this packet" (13 * 3 = 39)
 
-VARIABLES blocks, fault, fgn, items, pos, rx, out
-vars == <<blocks, fault, fgn, items, pos, rx, out>>
+VARIABLES blocks, fault, fgn, pol, items, pos, rx, out,
+          aux          \* ghost, fixed by blocks: [sent |-> the blocks as they must be delivered, bsp |-> the page in which each block starts]
+vars == <<blocks, fault, fgn, pol, items, pos, rx, out, aux>>
 
 -----------------------------------------------------------------------------
 (* sender *)
@@ -61,6 +77,10 @@ Lay(bl, k, w) ==
 
 Wire(bl) == LET w == Lay(bl, 1, <<>>) IN IF Len(w) % K = 0 THEN w ELSE w \o Rep(FILL, K - (Len(w) % K))
 
+\* first packet of a page of another service: a complete block (application 5) that must never be delivered
+ForeignSize == IF K >= 13 THEN 8 ELSE K - 5
+ForeignData == <<BS>> \o SH(5, ForeignSize) \o [i \in 1..ForeignSize |-> 200 + i] \o Rep(FILL, K - 5 - ForeignSize)
+
 FirstBS(d) == LET idx == {i \in 1..Len(d) : d[i] = BS} IN
               IF idx = {} THEN NoBP ELSE ((CHOOSE i \in idx : \A j \in idx : i <= j) - 1) \div 3
 
@@ -70,13 +90,13 @@ Items(bl, fg) ==
       n == Len(w) \div K
       pk(j) == LET d == SubSeq(w, (j - 1) * K + 1, j * K) IN
                [t |-> "P", page |-> (j - 1) \div NP, no |-> ((j - 1) % NP) + 1, bp |-> FirstBS(d), data |-> d]
-      hd(p) == [t |-> "H", page |-> p, ci |-> (p + 14) % 16,
+      hd(p) == [t |-> "H", page |-> p, ci |-> (p + CiStart) % 16,
                 n |-> IF (p + 1) * NP <= n THEN NP ELSE n - p * NP]
       \* behind the last packet of page p (j = its last packet)
       after(j) == IF j % NP # 0 /\ j # n THEN <<>>
                   ELSE LET p == (j - 1) \div NP IN
-                       CASE fg = "page"   -> <<[t |-> "X", page |-> p], [t |-> "P", page |-> p, no |-> 1, bp |-> 0, data |-> Rep(FILL, K)]>>
-                         [] fg = "stream" -> <<[t |-> "S", page |-> p]>>
+                       CASE fg = "page"   -> <<[t |-> "X", page |-> p], [t |-> "P", page |-> p, no |-> 1, bp |-> 0, data |-> ForeignData]>>
+                         [] fg = "stream" -> <<[t |-> "S", page |-> p], [t |-> "P", page |-> p, no |-> 1, bp |-> 0, data |-> ForeignData]>>
                          [] OTHER -> <<>>
       \* behind the first packet of a page
       mid(j) == IF fg = "mag" /\ (j - 1) % NP = 0 THEN <<[t |-> "M", page |-> (j - 1) \div NP]>> ELSE <<>>
@@ -126,40 +146,81 @@ Scan(r, d, bp, col) ==
             IF d[i] # BS THEN Reset(r)
             ELSE Decode([r EXCEPT !.buf = <<>>, !.left = 4, !.app = -1], d, bp, i)
 
-Feed(r, it) ==
-  IF it.t = "M" THEN r                       \* header of another magazine: does not end our page
-  ELSE IF it.t \in {"X", "S"}                \* header of our magazine that is not for us: ends our page, nothing accepted until ours
-  THEN LET r1 == IF TailAtForeign /\ TailCheck /\ r.packet <= r.np THEN Reset(r) ELSE r IN [r1 EXCEPT !.np = 0]
+HdrUnits == {"mrag0", "mrag1", "pgu", "pgt", "s1", "s2", "s3", "s4", "c1", "c2"}
+NoHit == [u |-> "none", i |-> 0]
+
+\* a header of our magazine that is not for us: ends our page, nothing is accepted until our next header
+NotOurs(r) == LET r1 == IF TailAtForeign /\ TailCheck /\ r.packet <= r.np THEN Reset(r) ELSE r IN [r1 EXCEPT !.np = 0]
+
+\* h: the unit of this item that is unreadable (NoHit: none), p: policy
+Feed(r, it, h, p) ==
+  IF h.u \in {"mrag0", "mrag1"} THEN (IF p = "strict" THEN Reset(r) ELSE r)     \* whose packet it was is unknown
+  ELSE IF it.t = "M" THEN r                  \* header of another magazine: does not end our page
+  ELSE IF h.u # "none" /\ p = "strict" THEN Reset(r)
+  ELSE IF it.t \in {"X", "S"}                \* header of our magazine that is not for us
+  THEN NotOurs(r)
   ELSE IF it.t = "H"
-  THEN LET r1 == IF it.ci # r.ci \/ (TailCheck /\ r.packet <= r.np) THEN Reset(r) ELSE r
-       IN [r1 EXCEPT !.ci = (it.ci + 1) % 16, !.packet = 1, !.np = it.n]
+  THEN IF h.u \in {"pgu", "pgt", "s1", "s2", "s3", "s4"} THEN NotOurs(r)         \* (lenient) cannot be recognised / used
+       ELSE LET r1 == IF it.ci # r.ci \/ (TailCheck /\ r.packet <= r.np) THEN Reset(r) ELSE r
+            IN [r1 EXCEPT !.ci = (it.ci + 1) % 16, !.packet = 1, !.np = it.n]
   ELSE IF r.np = 0 THEN r
        ELSE IF it.no # r.packet \/ it.no > r.np THEN Reset(r)
-            ELSE IF it.bp = -1 THEN Reset(r)                       \* uncorrectable block pointer
-                 ELSE Decode([r EXCEPT !.packet = it.no + 1], it.data, it.bp * 3, 0)
+            ELSE IF h.u = "bp" THEN Reset(r)                       \* uncorrectable block pointer
+                 ELSE LET d == IF h.u = "el" THEN [it.data EXCEPT ![h.i] = ERR] ELSE it.data
+                      IN Decode([r EXCEPT !.packet = it.no + 1], d, it.bp * 3, 0)
 
 -----------------------------------------------------------------------------
 Block == [app : {3}, size : Sizes, fill : Fills]
+SentBlockOf(bl, k) == [app |-> bl[k].app, size |-> bl[k].size, bytes |-> [i \in 1..bl[k].size |-> DataByte(k, i)]]
+\* the Hamming protected units of an item that the channel may hit (filler runs: their first and last byte)
+ElClass(d, i) == IF d[i] = BS THEN "bs" ELSE IF d[i] = FILL THEN "fill" ELSE IF IsNib(d[i]) THEN "sh" ELSE "data"
+FillEdge(d, i) == i = 1 \/ i = Len(d) \/ d[i - 1] # FILL \/ d[i + 1] # FILL
+UnitsOf(it) ==
+  IF it.t = "P"
+  THEN {[u |-> x, i |-> 0] : x \in Units \cap {"mrag0", "mrag1", "bp"}}
+       \cup {[u |-> "el", i |-> i] : i \in {j \in 1..Len(it.data) : ElClass(it.data, j) \in Units /\ (it.data[j] = FILL => FillEdge(it.data, j))}}
+  ELSE {[u |-> x, i |-> 0] : x \in Units \cap HdrUnits}
+FaultsOf(its, nb) ==
+  {[k |-> "none", at |-> 0, u |-> "-", i |-> 0]}
+  \cup (IF "drop" \in Faults THEN {[k |-> "drop", at |-> j, u |-> "-", i |-> 0] : j \in 1..Len(its)} ELSE {})
+  \cup (IF nb <= UnitBlocks
+        THEN UNION {{[k |-> e, at |-> j, u |-> h.u, i |-> h.i] : e \in Faults \cap {"err1", "err2"}, h \in UnitsOf(its[j])} : j \in 1..Len(its)}
+        ELSE {})
+
 Init == /\ blocks \in UNION {[1..n -> Block] : n \in 1..MaxBlocks}
         /\ fgn \in Foreign
+        /\ aux = [sent |-> [k \in 1..Len(blocks) |-> SentBlockOf(blocks, k)], bsp |-> BsPages(Wire(blocks), 1, <<>>, 0)]
         /\ items = Items(blocks, fgn)
-        /\ fault \in {[k |-> "none", at |-> 0]}
-                     \cup (IF "drop" \in Faults THEN {[k |-> "drop", at |-> i] : i \in 1..Len(Items(blocks, fgn))} ELSE {})
-                     \cup (IF "badbp" \in Faults THEN {[k |-> "badbp", at |-> i] : i \in {j \in 1..Len(Items(blocks, fgn)) : Items(blocks, fgn)[j].t = "P"}} ELSE {})
+        /\ fault \in FaultsOf(items, Len(blocks))
+        /\ pol \in (IF fault.k = "err2" THEN Policies ELSE {CHOOSE p \in Policies : TRUE})     \* the policies differ for err2 only
         /\ pos = 1 /\ rx = Rx0 /\ out = <<>>
 
+\* what the k-th item does to a receiver of policy p (r1.got = the blocks delivered while it is fed)
+StepOf(r, k, p) ==
+  LET it == items[k]
+      h == IF fault.k = "err2" /\ fault.at = k THEN [u |-> fault.u, i |-> fault.i] ELSE NoHit     \* err1 is corrected
+  IN IF fault.k = "drop" /\ fault.at = k THEN r ELSE Feed(r, it, h, p)
+
 Step == /\ pos <= Len(items)
-        /\ LET it == items[pos]
-               it1 == IF fault.k = "badbp" /\ fault.at = pos THEN [it EXCEPT !.bp = -1] ELSE it
-               r1 == IF fault.k = "drop" /\ fault.at = pos THEN rx ELSE Feed(rx, it1)
+        /\ LET r1 == StepOf(rx, pos, pol)
            IN /\ rx' = [r1 EXCEPT !.got = <<>>] /\ out' = out \o r1.got
-        /\ pos' = pos + 1 /\ UNCHANGED <<blocks, fault, fgn, items>>
+        /\ pos' = pos + 1 /\ UNCHANGED <<blocks, fault, fgn, pol, items, aux>>
+
+\* the same steps taken at once (the transmission is fixed in the initial state, so a behaviour is one chain):
+\* Leap is the composition of the remaining Steps; MC_Pfc_eq checks that it is (LeapAgrees)
+RECURSIVE RunAll(_, _, _, _, _)
+RunAll(r, k, o, hs, p) == IF k > Len(items) THEN [rx |-> r, out |-> o, hist |-> hs]
+                          ELSE LET r1 == StepOf(r, k, p) IN RunAll([r1 EXCEPT !.got = <<>>], k + 1, o \o r1.got, Append(hs, r1.got), p)
+Leap == /\ pos <= Len(items)
+        /\ LET res == RunAll(rx, pos, out, <<>>, pol) IN rx' = res.rx /\ out' = res.out
+        /\ pos' = Len(items) + 1 /\ UNCHANGED <<blocks, fault, fgn, pol, items, aux>>
+LeapSpec == Init /\ [][Leap]_vars
 Next == Step
 Spec == Init /\ [][Next]_vars
 
 -----------------------------------------------------------------------------
 (* C15, PFC half *)
-SentBlock(k) == [app |-> blocks[k].app, size |-> blocks[k].size, bytes |-> [i \in 1..blocks[k].size |-> DataByte(k, i)]]
+SentBlock(k) == aux.sent[k]
 Done == pos > Len(items)
 \* which block (index) each delivery is: deliveries are sent blocks, in order, none twice
 RECURSIVE Match(_, _)
@@ -167,14 +228,13 @@ Match(o, k) == IF o = <<>> THEN TRUE
                ELSE IF k > Len(blocks) THEN FALSE
                ELSE IF Head(o) = SentBlock(k) THEN Match(Tail(o), k + 1) ELSE Match(o, k + 1)
 Sound == Match(out, 1)
+LeapAgrees == Done => (out = RunAll(Rx0, 1, <<>>, <<>>, pol).out)
 \* without a fault every non-empty block is delivered (an empty block carries nothing; either way is accepted)
 NonEmpty(s) == SelectSeq(s, LAMBDA b : b.size > 0)
-Complete == (Done /\ fault.k = "none") =>
-              NonEmpty(out) = NonEmpty([k \in 1..Len(blocks) |-> SentBlock(k)])
+Complete == (Done /\ fault.k \in {"none", "err1"}) => NonEmpty(out) = NonEmpty(aux.sent)
 \* after a damaged page every block that starts in a later page is delivered again
-Resume == (Done /\ fault.k # "none") =>
+Resume == (Done /\ fault.k \notin {"none", "err1"}) =>
             LET pd == items[fault.at].page
-                bp == BsPages(Wire(blocks), 1, <<>>, 0)
             IN \A k \in 1..Len(blocks) :
-                 (bp[k] > pd /\ blocks[k].size > 0) => \E i \in 1..Len(out) : out[i] = SentBlock(k)
+                 (aux.bsp[k] > pd /\ blocks[k].size > 0) => \E i \in 1..Len(out) : out[i] = SentBlock(k)
 =============================================================================
